@@ -438,7 +438,7 @@ func genLargeCase(r *Rng) *StepCase {
 	if r.Chance(1, 25) {
 		sc.M = []int{250000, 1 << 20}[r.Intn(2)]
 	}
-	if r.Chance(1, 150) {
+	if r.Chance(1, 40) {
 		sc.M = []int{1<<21 + 1, 1<<21 + 7, 3000017}[r.Intn(3)] // beyond 2^21 cells (some hundred MiB per case: rare)
 	}
 	m := sc.M
